@@ -147,6 +147,10 @@ impl<'a> RecursivePageTable<'a> {
                     return Err(MapToError::FrameAllocationFailed);
                 }
             } else {
+                // Don't touch the flags of a huge page mapping: it is not a parent table entry.
+                if entry.flags().contains(Flags::HUGE_PAGE) {
+                    return Err(MapToError::ParentEntryHugePage);
+                }
                 if !insert_flags.is_empty() && !entry.flags().contains(insert_flags) {
                     entry.set_flags(entry.flags() | insert_flags);
                 }
